@@ -1,2 +1,513 @@
 import LenaModel.Model.C07
-/-! # C07 — helper lemmas -/
+/-! # C07 — helper lemmas: containment order, intersection as greatest lower bound, difference = specification -/
+namespace Lena.C07
+open Lena Lena.Val
+variable {α : Type} [DecidableEq α]
+
+/-! ### containment: order laws -/
+
+theorem contO_refl (lv : Int) : ∀ x : Option (Val α), contO lv x x = true
+  | none => by rw [contO]
+  | some (.leaf a) => by simp [contO]
+  | some (.dict x) => by simp [contO]
+
+theorem contL_refl (lv : Int) : ∀ a : Slots α, contL lv a a = true
+  | [] => by simp [contL]
+  | x :: r => by simp [contL, contO_refl lv x, contL_refl lv r]
+
+/-- `contL` treats a missing slot as an absent key -/
+theorem contL_cons_left (lv : Int) (x : Option (Val α)) (r b : Slots α) :
+    contL lv (x :: r) b = (contO lv x b.head?.join && contL lv r b.tail) := by
+  cases b <;> simp [contL]
+
+/-- a vector contained in the empty one has no keys, so it is contained in everything -/
+theorem contL_of_nil (lv : Int) : ∀ (a c : Slots α), contL lv a [] = true → contL lv a c = true
+  | [], _, _ => by simp [contL]
+  | none :: r, [], h => h
+  | none :: r, z :: c, h => by
+      simp [contL] at h ⊢
+      exact ⟨by rw [contO], contL_of_nil lv r c h.2⟩
+  | some v :: r, _, h => by simp [contL, contO] at h
+
+mutual
+theorem contO_trans (lv : Int) : ∀ x y z : Option (Val α),
+    contO lv x y = true → contO lv y z = true → contO lv x z = true
+  | none, _, _, _, _ => by rw [contO]
+  | some _, none, _, h, _ => by simp [contO] at h
+  | some _, some _, none, _, h => by simp [contO] at h
+  | some (.leaf a), some (.leaf b), some (.leaf c), h1, h2 => by
+      simp [contO] at h1 h2 ⊢; simp [h1, h2]
+  | some (.leaf a), some (.leaf b), some (.dict c), _, h2 => by simp [contO] at h2
+  | some (.leaf a), some (.dict b), _, h1, _ => by simp [contO] at h1
+  | some (.dict a), some (.leaf b), _, h1, _ => by simp [contO] at h1
+  | some (.dict a), some (.dict b), some (.leaf c), _, h2 => by simp [contO] at h2
+  | some (.dict a), some (.dict b), some (.dict c), h1, h2 => by
+      simp [contO] at h1 h2 ⊢
+      rcases h1 with h1 | ⟨hl, h1⟩
+      · subst h1; exact h2
+      · rcases h2 with h2 | ⟨_, h2⟩
+        · subst h2; exact Or.inr ⟨hl, h1⟩
+        · exact Or.inr ⟨hl, contL_trans (lv - 1) a b c h1 h2⟩
+theorem contL_trans (lv : Int) : ∀ a b c : Slots α,
+    contL lv a b = true → contL lv b c = true → contL lv a c = true
+  | [], _, _, _, _ => by simp [contL]
+  | x :: r, [], c, h1, _ => by
+      exact contL_of_nil lv _ c h1
+  | x :: r, y :: r', [], h1, h2 => by
+      simp [contL] at h1 h2 ⊢
+      exact ⟨contO_trans lv x y none h1.1 h2.1, contL_trans lv r r' [] h1.2 h2.2⟩
+  | x :: r, y :: r', z :: r'', h1, h2 => by
+      simp [contL] at h1 h2 ⊢
+      exact ⟨contO_trans lv x y z h1.1 h2.1, contL_trans lv r r' r'' h1.2 h2.2⟩
+end
+
+
+/-! ### well-formedness helpers -/
+
+omit [DecidableEq α] in
+theorem WFL_cons (n : Nat) (x : Option (Val α)) (r : Slots α) :
+    WFL n (x :: r) ↔ WFO n x ∧ WFL n r := by
+  cases x <;> simp [WFL, WFO]
+
+omit [DecidableEq α] in
+theorem WFO_dict (n : Nat) (x : Slots α) : WFO n (some (.dict x)) ↔ x.length = n ∧ WFL n x := by
+  simp [WFO, WF]
+
+mutual
+theorem contO_antisymm (lv : Int) (n : Nat) : ∀ x y : Option (Val α), WFO n x → WFO n y →
+    contO lv x y = true → contO lv y x = true → x = y
+  | none, none, _, _, _, _ => rfl
+  | none, some _, _, _, _, h => by simp [contO] at h
+  | some _, none, _, _, h, _ => by simp [contO] at h
+  | some (.leaf a), some (.leaf b), _, _, h, _ => by simp [contO] at h; simp [h]
+  | some (.leaf a), some (.dict b), _, _, h, _ => by simp [contO] at h
+  | some (.dict a), some (.leaf b), _, _, h, _ => by simp [contO] at h
+  | some (.dict a), some (.dict b), wa, wb, h1, h2 => by
+      simp [contO] at h1 h2
+      rcases h1 with h1 | ⟨_, h1⟩
+      · simp [h1]
+      · rcases h2 with h2 | ⟨_, h2⟩
+        · simp [h2]
+        · rw [WFO_dict] at wa wb
+          have := contL_antisymm (lv - 1) n a b (by omega) wa.2 wb.2 h1 h2
+          simp [this]
+theorem contL_antisymm (lv : Int) (n : Nat) : ∀ a b : Slots α, a.length = b.length → WFL n a → WFL n b →
+    contL lv a b = true → contL lv b a = true → a = b
+  | [], [], _, _, _, _, _ => rfl
+  | [], _ :: _, h, _, _, _, _ => by simp at h
+  | _ :: _, [], h, _, _, _, _ => by simp at h
+  | x :: r, y :: r', hl, wa, wb, h1, h2 => by
+      rw [WFL_cons] at wa wb
+      simp [contL] at h1 h2
+      rw [contO_antisymm lv n x y wa.1 wb.1 h1.1 h2.1,
+        contL_antisymm lv n r r' (by simpa using hl) wa.2 wb.2 h1.2 h2.2]
+end
+
+/-! ### intersection of two: lower bound and greatest -/
+
+theorem interL_length (lv : Int) : ∀ a b : Slots α, (interL lv a b).length = a.length
+  | [], _ => by simp [interL]
+  | _ :: r, [] => by simp [interL, interL_length lv r []]
+  | _ :: r, _ :: r' => by simp [interL, interL_length lv r r']
+
+mutual
+theorem interO_lower_left (lv : Int) : ∀ x y : Option (Val α), contO lv (interO lv x y) x = true
+  | none, _ => by simp [interO, contO]
+  | some v, none => by simp [interO, contO]
+  | some (.leaf a), some (.leaf b) => by
+      by_cases e : b = a <;> simp [interO, contO, e]
+  | some (.leaf a), some (.dict y) => by simp [interO, contO]
+  | some (.dict x), some (.leaf b) => by simp [interO, contO]
+  | some (.dict x), some (.dict y) => by
+      by_cases e : y = x
+      · simp [interO, contO, e]
+      · by_cases h1 : lv = 1
+        · simp [interO, contO, e, h1]
+        · have h0 : ¬ (lv - 1 = 0) := by omega
+          simp [interO, contO, e, h1, h0, interL_lower_left (lv - 1) x y]
+theorem interL_lower_left (lv : Int) : ∀ a b : Slots α, contL lv (interL lv a b) a = true
+  | [], _ => by simp [interL, contL]
+  | x :: r, [] => by simp [interL, contL, interO_lower_left lv x none, interL_lower_left lv r []]
+  | x :: r, y :: r' => by simp [interL, contL, interO_lower_left lv x y, interL_lower_left lv r r']
+end
+
+mutual
+theorem interO_lower_right (lv : Int) : ∀ x y : Option (Val α), contO lv (interO lv x y) y = true
+  | none, _ => by simp [interO, contO]
+  | some v, none => by simp [interO, contO]
+  | some (.leaf a), some (.leaf b) => by
+      by_cases e : b = a <;> simp [interO, contO, e]
+  | some (.leaf a), some (.dict y) => by simp [interO, contO]
+  | some (.dict x), some (.leaf b) => by simp [interO, contO]
+  | some (.dict x), some (.dict y) => by
+      by_cases e : y = x
+      · simp [interO, contO, e]
+      · by_cases h1 : lv = 1
+        · simp [interO, contO, e, h1]
+        · have h0 : ¬ (lv - 1 = 0) := by omega
+          simp [interO, contO, e, h1, h0, interL_lower_right (lv - 1) x y]
+theorem interL_lower_right (lv : Int) : ∀ a b : Slots α, contL lv (interL lv a b) b = true
+  | [], _ => by simp [interL, contL]
+  | x :: r, [] => by
+      have := interL_lower_right lv r []
+      simp [interL, contL, interO_lower_right lv x none, this]
+  | x :: r, y :: r' => by simp [interL, contL, interO_lower_right lv x y, interL_lower_right lv r r']
+end
+
+mutual
+theorem interO_greatest (lv : Int) : ∀ c x y : Option (Val α),
+    contO lv c x = true → contO lv c y = true → contO lv c (interO lv x y) = true
+  | none, _, _, _, _ => by rw [contO]
+  | some _, none, _, h, _ => by simp [contO] at h
+  | some _, some _, none, _, h => by simp [contO] at h
+  | some (.leaf c), some (.leaf a), some (.leaf b), h1, h2 => by
+      simp [contO] at h1 h2; subst h1; subst h2; simp [interO, contO]
+  | some (.leaf c), some (.leaf a), some (.dict b), _, h2 => by simp [contO] at h2
+  | some (.leaf c), some (.dict a), _, h1, _ => by simp [contO] at h1
+  | some (.dict c), some (.leaf a), _, h1, _ => by simp [contO] at h1
+  | some (.dict c), some (.dict a), some (.leaf b), _, h2 => by simp [contO] at h2
+  | some (.dict c), some (.dict x), some (.dict y), h1, h2 => by
+      by_cases e : y = x
+      · subst e; simpa [interO] using h1
+      · simp [contO] at h1 h2
+        by_cases hl : lv = 1
+        · exfalso
+          rcases h1 with h1 | ⟨h, _⟩
+          · rcases h2 with h2 | ⟨h, _⟩
+            · exact e (h2.symm.trans h1)
+            · exact h hl
+          · exact h hl
+        · have h0 : ¬ (lv - 1 = 0) := by omega
+          simp only [interO, Val.dict.injEq, e, if_false, hl, h0]
+          simp only [contO, Val.dict.injEq, Bool.or_eq_true, decide_eq_true_eq, Bool.and_eq_true, ne_eq]
+          right
+          refine ⟨hl, ?_⟩
+          have r1 : contL (lv - 1) c x = true := by
+            rcases h1 with h1 | ⟨_, h1⟩
+            · subst h1; exact contL_refl _ _
+            · exact h1
+          have r2 : contL (lv - 1) c y = true := by
+            rcases h2 with h2 | ⟨_, h2⟩
+            · subst h2; exact contL_refl _ _
+            · exact h2
+          exact interL_greatest (lv - 1) c x y r1 r2
+theorem interL_greatest (lv : Int) : ∀ c a b : Slots α,
+    contL lv c a = true → contL lv c b = true → contL lv c (interL lv a b) = true
+  | [], _, _, _, _ => by simp [contL]
+  | z :: c, [], _, h1, _ => by
+      simpa [interL] using h1
+  | z :: c, x :: r, [], h1, h2 => by
+      simp [contL] at h1 h2
+      simp [interL, contL]
+      exact ⟨interO_greatest lv z x none h1.1 h2.1, interL_greatest lv c r [] h1.2 h2.2⟩
+  | z :: c, x :: r, y :: r', h1, h2 => by
+      simp [contL] at h1 h2
+      simp [interL, contL]
+      exact ⟨interO_greatest lv z x y h1.1 h2.1, interL_greatest lv c r r' h1.2 h2.2⟩
+end
+
+
+/-! ### empty dictionaries -/
+
+omit [DecidableEq α] in
+@[simp] theorem emptyLike_length (l : Slots α) : (emptyLike l).length = l.length := by
+  simp [emptyLike]
+
+omit [DecidableEq α] in
+@[simp] theorem nonEmpty_emptyLike (l : Slots α) : nonEmpty (emptyLike l) = false := by
+  simp [nonEmpty, emptyLike]
+
+omit [DecidableEq α] in
+theorem nonEmpty_cons (x : Option (Val α)) (r : Slots α) :
+    nonEmpty (x :: r) = (x.isSome || nonEmpty r) := by
+  simp [nonEmpty]
+
+omit [DecidableEq α] in
+theorem emptyLike_cons (x : Option (Val α)) (r : Slots α) : emptyLike (x :: r) = none :: emptyLike r := by
+  simp [emptyLike, List.replicate_succ]
+
+omit [DecidableEq α] in
+/-- a dictionary without keys is `{}` -/
+theorem eq_emptyLike_of_empty : ∀ a : Slots α, nonEmpty a = false → a = emptyLike a
+  | [], _ => by simp [emptyLike]
+  | none :: r, h => by
+      rw [nonEmpty_cons] at h
+      rw [emptyLike_cons, ← eq_emptyLike_of_empty r (by simpa using h)]
+  | some _ :: r, h => by simp [nonEmpty_cons] at h
+
+omit [DecidableEq α] in
+theorem empty_eq_of_length : ∀ a b : Slots α, nonEmpty a = false → nonEmpty b = false →
+    a.length = b.length → a = b := by
+  intro a b ha hb hl
+  rw [eq_emptyLike_of_empty a ha, eq_emptyLike_of_empty b hb]
+  simp [emptyLike, hl]
+
+theorem contL_of_empty (lv : Int) : ∀ a b : Slots α, nonEmpty a = false → contL lv a b = true
+  | [], _, _ => by simp [contL]
+  | none :: r, [], h => by
+      rw [nonEmpty_cons] at h
+      simp [contL, contO, contL_of_empty lv r [] (by simpa using h)]
+  | none :: r, y :: b, h => by
+      rw [nonEmpty_cons] at h
+      simp [contL, contO, contL_of_empty lv r b (by simpa using h)]
+  | some _ :: r, _, h => by simp [nonEmpty_cons] at h
+
+theorem interL_of_empty (lv : Int) : ∀ a b : Slots α, nonEmpty a = false → interL lv a b = a
+  | [], _, _ => by simp [interL]
+  | none :: r, [], h => by
+      rw [nonEmpty_cons] at h
+      simp [interL, interO, interL_of_empty lv r [] (by simpa using h)]
+  | none :: r, y :: b, h => by
+      rw [nonEmpty_cons] at h
+      simp [interL, interO, interL_of_empty lv r b (by simpa using h)]
+  | some _ :: r, _, h => by simp [nonEmpty_cons] at h
+
+/-! ### containment at a level (`contained`, with the level-0 reading) -/
+
+theorem contained_refl (lv : Int) (a : Slots α) : contained lv a a = true := by
+  unfold contained; split <;> simp [contL_refl]
+
+theorem contained_of_empty (lv : Int) (a b : Slots α) (h : nonEmpty a = false) :
+    contained lv a b = true := by
+  unfold contained; split <;> simp [h, contL_of_empty lv a b h]
+
+theorem contained_trans (lv : Int) (a b c : Slots α)
+    (h1 : contained lv a b = true) (h2 : contained lv b c = true) : contained lv a c = true := by
+  unfold contained at *
+  by_cases h0 : lv = 0
+  · simp [h0] at h1 h2 ⊢
+    rcases h1 with h1 | h1
+    · subst h1; exact h2
+    · exact Or.inr h1
+  · simp [h0] at h1 h2 ⊢
+    exact contL_trans lv a b c h1 h2
+
+theorem contained_antisymm (lv : Int) (n : Nat) (a b : Slots α) (wa : WFD n a) (wb : WFD n b)
+    (h1 : contained lv a b = true) (h2 : contained lv b a = true) : a = b := by
+  unfold contained at *
+  by_cases h0 : lv = 0
+  · simp [h0] at h1 h2
+    rcases h1 with h1 | h1
+    · exact h1
+    · rcases h2 with h2 | h2
+      · exact h2.symm
+      · exact empty_eq_of_length a b h1 h2 (by rw [wa.1, wb.1])
+  · simp [h0] at h1 h2
+    exact contL_antisymm lv n a b (by rw [wa.1, wb.1]) wa.2 wb.2 h1 h2
+
+/-! ### one step of the loop over `dicts[1:]` -/
+
+theorem inter2_lower_left (lv : Int) (a b : Slots α) : contained lv (inter2 lv a b) a = true := by
+  unfold inter2 contained interLevel0
+  by_cases h0 : lv = 0
+  · simp only [h0, if_true]
+    split <;> simp
+  · simp [h0, interL_lower_left]
+
+theorem inter2_lower_right (lv : Int) (a b : Slots α) : contained lv (inter2 lv a b) b = true := by
+  unfold inter2 contained interLevel0
+  by_cases h0 : lv = 0
+  · simp only [h0, if_true]
+    split
+    · rename_i h; simp [h.1]
+    · simp
+  · simp [h0, interL_lower_right]
+
+theorem inter2_greatest (lv : Int) (c a b : Slots α)
+    (h1 : contained lv c a = true) (h2 : contained lv c b = true) :
+    contained lv c (inter2 lv a b) = true := by
+  unfold inter2 contained interLevel0 at *
+  by_cases h0 : lv = 0
+  · simp [h0] at h1 h2 ⊢
+    rcases h1 with h1 | h1
+    · rcases h2 with h2 | h2
+      · subst h1; subst h2
+        by_cases hn : nonEmpty c = true
+        · simp [hn]
+        · simp [hn]
+      · exact Or.inr h2
+    · exact Or.inr h1
+  · simp [h0] at h1 h2 ⊢
+    exact interL_greatest lv c a b h1 h2
+
+theorem inter2_of_empty (lv : Int) (e d : Slots α) (h : nonEmpty e = false) : inter2 lv e d = e := by
+  unfold inter2 interLevel0
+  by_cases h0 : lv = 0
+  · simp only [h0, if_true]
+    split
+    · rfl
+    · exact (eq_emptyLike_of_empty e h).symm
+  · simp [h0, interL_of_empty lv e d h]
+
+theorem foldl_inter2_of_empty (lv : Int) : ∀ (ds : List (Slots α)) (e : Slots α), nonEmpty e = false →
+    ds.foldl (inter2 lv) e = e
+  | [], _, _ => rfl
+  | d :: ds, e, h => by
+      simp only [List.foldl_cons, inter2_of_empty lv e d h]
+      exact foldl_inter2_of_empty lv ds e h
+
+/-- the two early returns of the loop are an optimisation: the loop is the left fold of the binary step -/
+theorem interFold_eq_foldl (lv : Int) : ∀ (ds : List (Slots α)) (res : Slots α),
+    interFold lv res ds = ds.foldl (inter2 lv) res
+  | [], _ => by simp [interFold]
+  | d :: ds, res => by
+      simp only [interFold, List.foldl_cons]
+      by_cases h0 : lv = 0
+      · simp only [h0, if_true, inter2, interLevel0]
+        split
+        · exact interFold_eq_foldl 0 ds res
+        · exact (foldl_inter2_of_empty 0 ds _ (nonEmpty_emptyLike res)).symm
+      · simp only [h0, if_false, inter2]
+        split
+        · exact interFold_eq_foldl lv ds _
+        · rename_i hn
+          exact (foldl_inter2_of_empty lv ds _ (by simpa using hn)).symm
+
+theorem foldl_inter2_lower_init (lv : Int) : ∀ (ds : List (Slots α)) (res : Slots α),
+    contained lv (ds.foldl (inter2 lv) res) res = true
+  | [], res => contained_refl lv res
+  | d :: ds, res => by
+      simp only [List.foldl_cons]
+      exact contained_trans lv _ _ _ (foldl_inter2_lower_init lv ds _) (inter2_lower_left lv res d)
+
+theorem foldl_inter2_lower_mem (lv : Int) : ∀ (ds : List (Slots α)) (res d : Slots α), d ∈ ds →
+    contained lv (ds.foldl (inter2 lv) res) d = true
+  | [], _, _, h => by simp at h
+  | d' :: ds, res, d, h => by
+      simp only [List.foldl_cons]
+      rcases List.mem_cons.1 h with h | h
+      · subst h
+        exact contained_trans lv _ _ _ (foldl_inter2_lower_init lv ds _) (inter2_lower_right lv res d)
+      · exact foldl_inter2_lower_mem lv ds _ d h
+
+theorem foldl_inter2_greatest (lv : Int) (c : Slots α) : ∀ (ds : List (Slots α)) (res : Slots α),
+    contained lv c res = true → (∀ d ∈ ds, contained lv c d = true) →
+    contained lv c (ds.foldl (inter2 lv) res) = true
+  | [], _, h, _ => h
+  | d :: ds, res, h, hall => by
+      simp only [List.foldl_cons]
+      exact foldl_inter2_greatest lv c ds _
+        (inter2_greatest lv c res d h (hall d (by simp)))
+        (fun d' hd' => hall d' (by simp [hd']))
+
+
+/-! ### well-formedness is preserved -/
+
+omit [DecidableEq α] in
+theorem WFL_emptyLike (n : Nat) : ∀ l : Slots α, WFL n (emptyLike l)
+  | [] => by simp [emptyLike, WFL]
+  | x :: r => by rw [emptyLike_cons]; simp [WFL, WFL_emptyLike n r]
+
+mutual
+theorem interO_wf (lv : Int) (n : Nat) : ∀ x y : Option (Val α), WFO n x → WFO n (interO lv x y)
+  | none, _, _ => by simp [interO, WFO]
+  | some v, none, _ => by simp [interO, WFO]
+  | some (.leaf a), some (.leaf b), _ => by
+      by_cases e : b = a <;> simp [interO, WFO, WF, e]
+  | some (.leaf a), some (.dict y), _ => by simp [interO, WFO]
+  | some (.dict x), some (.leaf b), _ => by simp [interO, WFO]
+  | some (.dict x), some (.dict y), h => by
+      by_cases e : y = x
+      · simpa [interO, e] using h
+      · by_cases h1 : lv = 1
+        · simp [interO, e, h1, WFO]
+        · have h0 : ¬ (lv - 1 = 0) := by omega
+          rw [WFO_dict] at h
+          simp only [interO, Val.dict.injEq, e, if_false, h1, h0]
+          rw [WFO_dict]
+          exact ⟨by rw [interL_length]; exact h.1, interL_wf (lv - 1) n x y h.2⟩
+theorem interL_wf (lv : Int) (n : Nat) : ∀ a b : Slots α, WFL n a → WFL n (interL lv a b)
+  | [], _, _ => by simp [interL, WFL]
+  | x :: r, [], h => by
+      rw [WFL_cons] at h
+      simp only [interL]; rw [WFL_cons]
+      exact ⟨interO_wf lv n x none h.1, interL_wf lv n r [] h.2⟩
+  | x :: r, y :: r', h => by
+      rw [WFL_cons] at h
+      simp only [interL]; rw [WFL_cons]
+      exact ⟨interO_wf lv n x y h.1, interL_wf lv n r r' h.2⟩
+end
+
+theorem inter2_wf (lv : Int) (n : Nat) (a b : Slots α) (h : WFD n a) : WFD n (inter2 lv a b) := by
+  unfold inter2 interLevel0
+  by_cases h0 : lv = 0
+  · simp only [h0, if_true]
+    split
+    · exact h
+    · exact ⟨by simp [h.1], WFL_emptyLike n a⟩
+  · simp only [h0, if_false]
+    exact ⟨by rw [interL_length]; exact h.1, interL_wf lv n a b h.2⟩
+
+theorem foldl_inter2_wf (lv : Int) (n : Nat) : ∀ (ds : List (Slots α)) (res : Slots α), WFD n res →
+    WFD n (ds.foldl (inter2 lv) res)
+  | [], _, h => h
+  | d :: ds, res, h => by
+      simp only [List.foldl_cons]
+      exact foldl_inter2_wf lv n ds _ (inter2_wf lv n res d h)
+
+/-! ### difference: the model computes the specification -/
+
+theorem diffSpecO_isSome (lv : Int) : ∀ x y : Option (Val α),
+    (diffSpecO lv x y).isSome = !contO lv x y
+  | none, _ => by simp [diffSpecO, contO]
+  | some v, none => by simp [diffSpecO, contO]
+  | some (.leaf a), some (.leaf b) => by
+      by_cases e : a = b <;> simp [diffSpecO, contO, e]
+  | some (.leaf a), some (.dict y) => by simp [diffSpecO, contO]
+  | some (.dict x), some (.leaf b) => by simp [diffSpecO, contO]
+  | some (.dict x), some (.dict y) => by
+      simp only [diffSpecO]
+      split
+      · rename_i h; simp [h]
+      · rename_i h
+        have : contO lv (some (.dict x)) (some (.dict y)) = false := by simpa using h
+        rw [this]
+        split <;> simp
+
+theorem diffSpecL_nonEmpty (lv : Int) : ∀ a b : Slots α,
+    nonEmpty (diffSpecL lv a b) = !contL lv a b
+  | [], _ => by simp [diffSpecL, contL, nonEmpty]
+  | x :: r, [] => by
+      simp only [diffSpecL, contL, nonEmpty_cons, diffSpecO_isSome, diffSpecL_nonEmpty lv r []]
+      simp [Bool.not_and]
+  | x :: r, y :: r' => by
+      simp only [diffSpecL, contL, nonEmpty_cons, diffSpecO_isSome, diffSpecL_nonEmpty lv r r']
+      simp [Bool.not_and]
+
+section diff
+variable (truthy : α → Bool)
+
+theorem diffL_length (lv : Int) : ∀ a b : Slots α, (diffL truthy lv a b).length = a.length
+  | [], _ => by simp [diffL]
+  | _ :: r, [] => by simp [diffL, diffL_length lv r []]
+  | _ :: r, _ :: r' => by simp [diffL, diffL_length lv r r']
+
+mutual
+theorem diffO_eq_spec (lv : Int) : ∀ x y : Option (Val α), diffO truthy lv x y = diffSpecO lv x y
+  | none, _ => by simp [diffO, diffSpecO]
+  | some v, none => by simp [diffO, diffSpecO]
+  | some (.leaf a), some (.leaf b) => by
+      by_cases e : a = b <;> simp [diffO, diffSpecO, contO, isDict, e]
+  | some (.leaf a), some (.dict y) => by simp [diffO, diffSpecO, contO, isDict]
+  | some (.dict x), some (.leaf b) => by simp [diffO, diffSpecO, contO, isDict]
+  | some (.dict x), some (.dict y) => by
+      by_cases e : x = y
+      · simp [diffO, diffSpecO, contO, e]
+      · by_cases h1 : lv = 1
+        · simp [diffO, diffSpecO, contO, isDict, e, h1]
+        · have h0 : ¬ (lv - 1 = 0) := by omega
+          have ih := diffL_eq_spec (lv - 1) x y
+          have hne := diffSpecL_nonEmpty (lv - 1) x y
+          simp only [diffO, diffSpecO, contO, Val.dict.injEq, e, isDict, diffV, h0, h1, truthyV, ih]
+          by_cases hc : contL (lv - 1) x y = true
+          · simp [hc, h1, hne]
+          · simp [hc, h1, hne]
+theorem diffL_eq_spec (lv : Int) : ∀ a b : Slots α, diffL truthy lv a b = diffSpecL lv a b
+  | [], _ => by simp [diffL, diffSpecL]
+  | x :: r, [] => by simp [diffL, diffSpecL, diffO_eq_spec lv x none, diffL_eq_spec lv r []]
+  | x :: r, y :: r' => by simp [diffL, diffSpecL, diffO_eq_spec lv x y, diffL_eq_spec lv r r']
+end
+
+end diff
+
+end Lena.C07
